@@ -433,16 +433,23 @@ def run_extract(case):
 
 def run_recenter(case):
     from frame.netlist.module import Module
-    from frame.geometry.geometry import Point
-    m = Module("H", hard=True)
-    for r in case["rects"]:
-        m.add_rectangle(fr.mk_rect(r))
-    m.center = Point(float(case["center"][0]), float(case["center"][1]))
+    from frame.geometry.geometry import Point, Rectangle
+    # recenter_rectangles always runs with the Rectangle tolerances defined (a Netlist holding the module defines them:
+    # 1e-12 * the smallest dimension); without them a harmless change that merely reads the tolerance would raise here
+    Rectangle.undefine_epsilon()
     try:
-        m.recenter_rectangles()
-    except ZeroDivisionError:
-        return {"out": None}
-    return {"out": [fr.rect_obs(r) for r in m.rectangles]}
+        Rectangle.set_epsilon(min(min(float(r["w"]), float(r["h"])) for r in case["rects"]) * 1e-12)
+        m = Module("H", hard=True)
+        for r in case["rects"]:
+            m.add_rectangle(fr.mk_rect(r))
+        m.center = Point(float(case["center"][0]), float(case["center"][1]))
+        try:
+            m.recenter_rectangles()
+        except ZeroDivisionError:
+            return {"out": None}
+        return {"out": [fr.rect_obs(r) for r in m.rectangles]}
+    finally:
+        Rectangle.undefine_epsilon()
 
 
 def a_table(model, ncells):
